@@ -142,6 +142,10 @@ func (s *sim) applyMem(o ck.Op) {
 			s.entries[o.Blob] = true
 			s.tags[o.Ref] = o.Blob
 		}
+	case "tagdigest":
+		if s.blobs[o.Blob] && !(undecodable[o.Blob] && !s.gcUniv) {
+			s.entries[o.Blob] = true // entered by digest only
+		}
 	case "untag":
 		delete(s.tags, o.Ref)
 	case "delete":
@@ -390,7 +394,11 @@ func randomOp(r *common.Rand, s *sim, sc *ck.Script) ck.Op {
 		case x < 90:
 			return ck.Op{Kind: "saveindex"}
 		default: // arbitrary arguments: error paths
-			switch r.Intn(4) {
+			switch r.Intn(6) {
+			case 4:
+				return ck.Op{Kind: "tagdigest", Blob: common.Pick(r, allIDs)}
+			case 5:
+				return ck.Op{Kind: "untagdigest", Blob: common.Pick(r, allIDs)}
 			case 0:
 				return ck.Op{Kind: "push", Blob: common.Pick(r, allIDs)}
 			case 1:
@@ -414,6 +422,7 @@ var finalKinds = []string{
 	"push-sha512", "push-manifest-sha512", "delete-sha512", "push-sha384",
 	"delete-after-variant-tag", "delete-variant", "tag-variant",
 	"push-undecodable", "tag-undecodable", "tag-undecodable-after-crash",
+	"tag-digest", "tag-digest-manifest", "untag-digest",
 }
 
 // realize extends the history so that the situation exists and returns the final op.
@@ -519,6 +528,17 @@ func realize(r *common.Rand, kind string, s *sim, hist *[]ck.Op) ck.Op {
 			do(ck.Op{Kind: "tag", Blob: man, Ref: 6})
 		}
 		return ck.Op{Kind: "tag", Blob: man, Ref: 6, Variant: true}
+	case "tag-digest":
+		// a layer entered into index.json by its digest only
+		id := common.Pick(r, []int{1, 3})
+		ensure(id, true)
+		return ck.Op{Kind: "tagdigest", Blob: id}
+	case "tag-digest-manifest":
+		ensure(man, true)
+		return ck.Op{Kind: "tagdigest", Blob: man}
+	case "untag-digest":
+		ensure(man, true)
+		return ck.Op{Kind: "untagdigest", Blob: man}
 	case "push-undecodable":
 		ensure(7, false)
 		return ck.Op{Kind: "push", Blob: 7}
@@ -1412,8 +1432,8 @@ func runGeneratedIn(r *common.Rand, sc *ck.Script, histLen int, kind string, all
 			kinds = gcKinds
 		}
 		kind := common.Pick(r, kinds)
-		if kind == "untag-missing" {
-			kind = "untag" // an Untag of an unknown reference issues no system call: nothing to be killed in
+		if kind == "untag-missing" || kind == "untag-digest" {
+			kind = "untag" // an Untag of an unknown reference / of a digest issues no system call: nothing to be killed in
 		}
 		seg.Final = pick(kind, s, &seg.History)
 		seg.K = r.Intn(1000)
